@@ -195,7 +195,7 @@ PROPS["C08"] = dict(
     trusted_base=COMMON_TRUST + ["ghost file system contracts (engine/symex/fsmodel.go)"],
 )
 PROPS["C15"] = dict(PROPS["C08"], explanation=FS_NOTE + "Assertions: rotation happens when BytesWritten>=MaxBytes>0 or the file is certainly older than MaxDuration>0 and never when certainly below both; counters restart; active name plain with TimestampOnlyOnRotate; at most MaxFiles rotated files right after a rotation (oldest removed first); configured mode applied.")
-PROPS["C13"]["jobs"].append(dict(harness=BROKER_H, entries=r"^H_C08_Process$|^H_C13_file_specials$|^H_C13_file_partial_write$", params=dict(quick=dict(R=0, FAULTS=1), thorough=dict(R=1, FAULTS=1)), shards=dict(quick=8, thorough=16), instrument_clock=True))
+PROPS["C13"]["jobs"].append(dict(harness=BROKER_H, entries=r"^H_C08_Process$|^H_C13_file_specials$|^H_C13_file_partial_write$", params=dict(quick=dict(R=0, FAULTS=1), thorough=dict(R=1, FAULTS=1)), shards=dict(quick=8, thorough=16), instrument_clock=True, instrument_fs=True))
 PROPS["C13"]["jobs"].append(dict(harness=BROKER_H, entries=r"^H_C08_concurrent_writers$", params=dict(quick={}, thorough={}), shards=dict(quick=4, thorough=8), maxswitches=dict(quick=3, thorough=5), instrument_locks=True))
 PROPS["C13"]["must_reach"] += ["C13.file.specials", "C13.file.noformat", "C13.file.partial.ok", "C08.concurrent.end", "C13.channel.two-senders.end"]
 ENC_H = ["encrypt/common.go", "encrypt/helpers_sym.go", "encrypt/helpers_native.go", "encrypt/c16.go", "encrypt/history.go"]
